@@ -40,6 +40,9 @@ func userByName(n string) *userDef {
 			return &fixtureUsers[i]
 		}
 	}
+	if strings.HasPrefix(n, "mx_user") { // users of the privilege-matrix campaign
+		return &userDef{Name: n, Pass: "Matrix_Pass#19", Priv: map[string]int{}}
+	}
 	return nil
 }
 
